@@ -97,6 +97,8 @@ package tmi
 //@   requires s.Voting.Round < MAXU32 - 1 && s.NextRound.Version < MAXU32 && s.Voting.Version < MAXU32
 //@   ensures height-kept: s.Voting.Height == old(s.Voting.Height) && s.NextRound.Height == old(s.Voting.Height)
 //@   ensures round-plus-one: s.Voting.Round == old(s.Voting.Round) + 1 && s.NextRound.Round == s.Voting.Round + 1
+//@   ensures proposed-headers-carried: s.Voting.ProposedHeaders == old(s.NextRound.ProposedHeaders) && len(s.NextRound.ProposedHeaders) == 0 &&
+//@       arr(s.NextRound.ProposedHeaders) == old(arr(s.Voting.ProposedHeaders))
 //@   ensures committing-kept: s.Committing.Height == old(s.Committing.Height) && s.Committing.Round == old(s.Committing.Round)
 //@   ensures valset-kept: s.Voting.ValidatorSet == old(s.NextRound.ValidatorSet) && s.NextRound.ValidatorSet == old(s.Voting.ValidatorSet)
 //@   ensures version-bump: s.Voting.Version == old(s.NextRound.Version) + 1 && s.NextRound.Version == 1
@@ -110,11 +112,16 @@ package tmi
 //@   requires s.Voting.Round < MAXU32 - 1 && s.NextRound.Version < MAXU32 && s.Voting.Version < MAXU32
 //@   ensures height-kept: s.Voting.Height == old(s.Voting.Height) && s.NextRound.Height == old(s.Voting.Height)
 //@   ensures round-plus-one: s.Voting.Round == old(s.Voting.Round) + 1 && s.NextRound.Round == s.Voting.Round + 1
+//@   ensures proposed-headers-carried: s.Voting.ProposedHeaders == old(s.NextRound.ProposedHeaders) && len(s.NextRound.ProposedHeaders) == 0 &&
+//@       arr(s.NextRound.ProposedHeaders) == old(arr(s.Voting.ProposedHeaders))
 //@   ensures committing-kept: s.Committing.Height == old(s.Committing.Height) && s.Committing.Round == old(s.Committing.Round)
 //@   ensures nil-voted-round-retained: s.GossipViewManager.NilVotedRound != nil &&
 //@       s.GossipViewManager.NilVotedRound.Height == old(s.Voting.Height) && s.GossipViewManager.NilVotedRound.Round == old(s.Voting.Round) &&
 //@       s.GossipViewManager.NilVotedRound.Version == old(s.Voting.Version)
-//@   modifies heap
+//@   modifies s.Voting, s.NextRound, s.GossipViewManager.Voting.VRV, s.GossipViewManager.NextRound.VRV, s.StateMachineViewManager.outgoingView,
+//@       old(s.Voting.PrevoteProofs)[*], old(s.Voting.PrecommitProofs)[*], old(s.Voting.PrevoteBlockVersions)[*], old(s.Voting.PrecommitBlockVersions)[*],
+//@       old(s.Voting.VoteSummary.PrevoteBlockPower)[*], old(s.Voting.VoteSummary.PrecommitBlockPower)[*], old(s.Voting.ProposedHeaders)[*],
+//@       s.GossipViewManager.NilVotedRound, s.GossipViewManager.pendingRoundSessionChanges, s.GossipViewManager.pendingRoundSessionChanges[*], s.GossipViewManager.inGrace[*]
 
 //@ func kState.JumpVotingRound
 //@   property C04 C11
@@ -122,10 +129,15 @@ package tmi
 //@   requires s.Voting.Round < MAXU32 - 1 && s.NextRound.Version < MAXU32 && s.Voting.Version < MAXU32
 //@   ensures height-kept: s.Voting.Height == old(s.Voting.Height) && s.NextRound.Height == old(s.Voting.Height)
 //@   ensures round-plus-one: s.Voting.Round == old(s.Voting.Round) + 1 && s.NextRound.Round == s.Voting.Round + 1
+//@   ensures proposed-headers-carried: s.Voting.ProposedHeaders == old(s.NextRound.ProposedHeaders) && len(s.NextRound.ProposedHeaders) == 0 &&
+//@       arr(s.NextRound.ProposedHeaders) == old(arr(s.Voting.ProposedHeaders))
 //@   ensures committing-kept: s.Committing.Height == old(s.Committing.Height) && s.Committing.Round == old(s.Committing.Round)
 //@   ensures jump-ahead-delivered: old(s.StateMachineViewManager.roundEntrance.H) == old(s.Voting.Height) && old(s.StateMachineViewManager.roundEntrance.R) == old(s.Voting.Round) ==>
 //@       s.StateMachineViewManager.jumpAhead != nil && s.StateMachineViewManager.jumpAhead.Height == s.Voting.Height && s.StateMachineViewManager.jumpAhead.Round == s.Voting.Round
-//@   modifies heap
+//@   modifies s.Voting, s.NextRound, s.GossipViewManager.Voting.VRV, s.GossipViewManager.NextRound.VRV, s.StateMachineViewManager.outgoingView,
+//@       old(s.Voting.PrevoteProofs)[*], old(s.Voting.PrecommitProofs)[*], old(s.Voting.PrevoteBlockVersions)[*], old(s.Voting.PrecommitBlockVersions)[*],
+//@       old(s.Voting.VoteSummary.PrevoteBlockPower)[*], old(s.Voting.VoteSummary.PrecommitBlockPower)[*], old(s.Voting.ProposedHeaders)[*],
+//@       s.StateMachineViewManager.jumpAhead
 
 // ShiftVotingToCommitting: the commit step of the kernel state (C04 position, C07 validator set, C06 power, C09 no double close).
 // chanclosed(c): ghost flag set by close(c).
@@ -144,8 +156,80 @@ package tmi
 //@   ensures committing-header: s.CommittingHeader == nhd.VotedHeader
 //@   ensures available-power: s.Voting.VoteSummary.AvailablePower == psum(nhd.ValidatorSet.Validators, allbits(), len(nhd.ValidatorSet.Validators)) &&
 //@       s.NextRound.VoteSummary.AvailablePower == s.Voting.VoteSummary.AvailablePower
-//@   ensures fresh-vote-state: len(s.Voting.PrevoteProofs) == 0 && len(s.Voting.PrecommitProofs) == 0 && len(s.Voting.ProposedHeaders) == 0 &&
+//@   ensures fresh-vote-state: len(s.Voting.PrevoteProofs) == 0 && len(s.Voting.PrecommitProofs) == 0 && len(s.Voting.ProposedHeaders) == 0 && len(s.NextRound.ProposedHeaders) == 0 &&
 //@       s.Voting.VoteSummary.TotalPrevotePower == 0 && s.Voting.VoteSummary.TotalPrecommitPower == 0
 //@   ensures height-committed-signal: old(s.StateMachineViewManager.roundEntrance.H) == old(s.Committing.Height) &&
 //@       old(s.StateMachineViewManager.roundEntrance.HeightCommitted) != nil ==> chanclosed(old(s.StateMachineViewManager.roundEntrance.HeightCommitted))
-//@   modifies heap
+//@   modifies s.Committing, s.Voting, s.NextRound, s.CommittingHeader, s.GossipViewManager.Committing.VRV, s.GossipViewManager.Voting.VRV, s.GossipViewManager.NextRound.VRV,
+//@       s.StateMachineViewManager.outgoingView, s.StateMachineViewManager.jumpAhead,
+//@       s.GossipViewManager.pendingRoundSessionChanges, s.GossipViewManager.pendingRoundSessionChanges[*], s.GossipViewManager.inGrace[*],
+//@       old(s.NextRound.PrevCommitProof.Proofs)[*], old(s.NextRound.PrevoteProofs)[*], old(s.NextRound.PrecommitProofs)[*],
+//@       old(s.NextRound.PrevoteBlockVersions)[*], old(s.NextRound.PrecommitBlockVersions)[*],
+//@       old(s.NextRound.VoteSummary.PrevoteBlockPower)[*], old(s.NextRound.VoteSummary.PrecommitBlockPower)[*], old(s.NextRound.ProposedHeaders)[*],
+//@       chanclosed(s.StateMachineViewManager.roundEntrance.HeightCommitted)
+
+// ---- the kernel's durable state (C04 chain shape, C10 write order, C01 commit gate) ----
+
+// Abstract state of the stores the kernel writes (one store of each kind per kernel; keyed by 0 or by height):
+//   hmax(0)   highest height recorded in the committed-header store (0: nothing recorded yet)
+//   hhash(h)  hash of the header recorded at height h
+//   msvh/msvr/msch/mscr(0)  position recorded in the mirror store
+//@ ghost hmax(ref) mathint
+//@ ghost hhash(ref) string
+//@ ghost msvh(ref) mathint
+//@ ghost msvr(ref) mathint
+//@ ghost msch(ref) mathint
+//@ ghost mscr(ref) mathint
+
+// The committed chain is gap-free, immutable and hash-linked (C04): a header is recorded only directly above the last one,
+// and above the first recorded height it names the previous recorded hash as its predecessor.
+//@ iface tmstore.CommittedHeaderStore.SaveCommittedHeader(st, ctx, ch)
+//@   requires next-height-only: hmax(0) == 0 || ch.Header.Height == hmax(0) + 1
+//@   requires hash-linked: hmax(0) != 0 ==> bytes(ch.Header.PrevBlockHash) == hhash(hmax(0))
+//@   ensures result == nil ==> hmax(0) == ch.Header.Height && hhash(ch.Header.Height) == bytes(ch.Header.Hash)
+//@   ensures result != nil ==> hmax(0) == old(hmax(0)) && hhash(ch.Header.Height) == old(hhash(ch.Header.Height))
+//@   modifies hmax(0), hhash(ch.Header.Height)
+
+// The recorded position never moves backwards, voting is one above committing (C04), and a committing height is recorded
+// only once its header is in the committed-header store (C10: a restart from the recorded position finds the header).
+//@ iface tmstore.MirrorStore.SetNetworkHeightRound(st, ctx, vh, vr, ch, cr)
+//@   requires committed-header-recorded-first: ch == 0 || hmax(0) == ch
+//@   requires position-never-backwards: vh > msvh(0) || (vh == msvh(0) && vr >= msvr(0))
+//@   requires committing-never-backwards: ch >= msch(0)
+//@   requires voting-above-committing: ch == 0 || vh == ch + 1
+//@   ensures result == nil ==> msvh(0) == vh && msvr(0) == vr && msch(0) == ch && mscr(0) == cr
+//@   ensures result != nil ==> msvh(0) == old(msvh(0)) && msvr(0) == old(msvr(0)) && msch(0) == old(msch(0)) && mscr(0) == old(mscr(0))
+//@   modifies msvh(0), msvr(0), msch(0), mscr(0)
+
+// phOK: a proposed header held in the voting view is for the voting height and extends the committing header.
+//@ define phOK(s, ph) = ph.Header.Height == s.Voting.Height && (s.Committing.Height != 0 ==> bytes(ph.Header.PrevBlockHash) == bytes(s.CommittingHeader.Hash))
+// KInv: the kernel state agrees with what is durably recorded.
+//@ define KInv(s) = (s.Committing.Height == 0 ? hmax(0) == 0 : (hmax(0) == s.Committing.Height && hhash(hmax(0)) == bytes(s.CommittingHeader.Hash) && s.Voting.Height == s.Committing.Height + 1)) &&
+//@     s.NextRound.Height == s.Voting.Height && s.NextRound.Round == s.Voting.Round + 1 && s.Voting.Height >= 1 &&
+//@     (msvh(0) < s.Voting.Height || (msvh(0) == s.Voting.Height && msvr(0) <= s.Voting.Round)) && msch(0) <= s.Committing.Height &&
+//@     (forall i int :: {addr(s.Voting.ProposedHeaders[i])} 0 <= i && i < len(s.Voting.ProposedHeaders) ==> phOK(s, s.Voting.ProposedHeaders[i])) &&
+//@     (forall i int :: {addr(s.NextRound.ProposedHeaders[i])} 0 <= i && i < len(s.NextRound.ProposedHeaders) ==> phOK(s, s.NextRound.ProposedHeaders[i])) &&
+//@     (len(s.NextRound.ProposedHeaders) == 0 || arr(s.NextRound.ProposedHeaders) != arr(s.Voting.ProposedHeaders))
+//@ define KBounds(s) = s.Voting.Height < MAXU64 && s.Voting.Round < MAXU32 - 1 && s.Voting.Version < MAXU32 && s.NextRound.Version < MAXU32 && s.Committing.Version < MAXU32
+//@ define twoThirds(vs, h) = 3 * vs.PrecommitBlockPower[h] > 2 * vs.AvailablePower
+
+//@ func Kernel.checkVotingPrecommitViewShift
+//@   property C01 C04 C10
+//@   requires KInv(s) && KBounds(s)
+//@   requires k.store != nil && k.hStore != nil
+//@   requires s.Voting.VoteSummary.AvailablePower > 0
+//@   requires s.GossipViewManager.inGrace != nil
+//@   requires s.StateMachineViewManager.roundEntrance.H == s.Committing.Height ==> !chanclosed(s.StateMachineViewManager.roundEntrance.HeightCommitted)
+//@   requires forall i int :: {addr(s.Voting.ProposedHeaders[i])} 0 <= i && i < len(s.Voting.ProposedHeaders) ==>
+//@       psum(s.Voting.ProposedHeaders[i].Header.NextValidatorSet.Validators, allbits(), len(s.Voting.ProposedHeaders[i].Header.NextValidatorSet.Validators)) <= MAXU64
+//@   ensures commit-needs-two-thirds: s.Committing.Height != old(s.Committing.Height) ==>
+//@       old(s.Voting.VoteSummary.MostVotedPrecommitHash) != "" && old(twoThirds(s.Voting.VoteSummary, s.Voting.VoteSummary.MostVotedPrecommitHash)) &&
+//@       bytes(s.CommittingHeader.Hash) == old(s.Voting.VoteSummary.MostVotedPrecommitHash)
+//@   ensures commit-is-old-voting: s.Committing.Height != old(s.Committing.Height) ==>
+//@       s.Committing.Height == old(s.Voting.Height) && s.Committing.Round == old(s.Voting.Round) && s.Voting.Height == old(s.Voting.Height) + 1 && s.Voting.Round == 0
+//@   ensures no-commit-position: s.Committing.Height == old(s.Committing.Height) ==> s.Committing.Round == old(s.Committing.Round) &&
+//@       s.Voting.Height == old(s.Voting.Height) && (s.Voting.Round == old(s.Voting.Round) || s.Voting.Round == old(s.Voting.Round) + 1)
+//@   ensures inv-kept: result == nil ==> KInv(s)
+//@   ensures position-recorded: result == nil && (s.Voting.Height != old(s.Voting.Height) || s.Voting.Round != old(s.Voting.Round)) ==>
+//@       msvh(0) == s.Voting.Height && msvr(0) == s.Voting.Round && msch(0) == s.Committing.Height && mscr(0) == s.Committing.Round
+//@   modifies memory except Kernel, hmax(0), hhash(s.Voting.Height), msvh(0), msvr(0), msch(0), mscr(0), chanclosed(s.StateMachineViewManager.roundEntrance.HeightCommitted)
